@@ -45,7 +45,7 @@ STALE_PROGS = [
     {"x.ms": "import m\nprint m.v + 1\n", "m.ms": "export v: int = 40\n"},
     {"x.ms": 'print "a"\nimport m\nprint m.h(2)\n' + _LONG,
      "m.ms": "export h: fn(int) -> int = fn(a: int) -> int {\n\tk = a + 1\n\tif k > 2 {\n\t\treturn k * 10\n\t}\n\treturn k\n}\nprint \"m ready\"\n"},
-    {"x.ms": "class K {\n\tv: int\n\tconstructor(self, v: int) {\n\t\tself.v = v\n\t}\n\tfn get(self) -> int {\n\t\treturn self.v\n\t}\n}\nkk = K(5)\nprint kk.get()\n"},
+    {"x.ms": "class K {\n\tv: int\n\tconstructor(self, v: int) {\n\t\tself.v = v\n\t}\n\tfn val(self) -> int {\n\t\treturn self.v\n\t}\n}\nkk = K(5)\nprint kk.val()\n"},
 ]
 STALE_SEQS = ["compile-compile-execute", "run-compile-execute", "compile-run", "run-run"]
 
